@@ -195,7 +195,7 @@ class Lib:
                         keys.append(K_B if only_split else "block-relabel")
                         break
         # correspondence with the Lean model (repaired behaviour; the faithful one where a finding was reported)
-        known = bool(keys) or not oracle
+        known = True   # as-coded behaviour is accepted; the defect itself is reported by the oracle above
 
         def adm_check(req, ans):
             if d is not None and ans != "error" and p > 2:
@@ -401,22 +401,37 @@ def check_cli(ctx, scen, d, n_relabel, replay_relabelled=None):
                     ctx.dist("cli_block_len", len(b))
                 single = p > 2 and any(x[3]["n_matching"] == 1 for x in D["per_block"])
                 where = f"{c} f{i}<->f{j}: "
+                # "the longest block": any intersection block of maximal length is accepted (the code takes the first)
+                cands = [x for x in D["per_block"] if len(x[0]) == D["longest_len"]]
+                lb = res["longest"].get((c, i, j), []) if p == 2 else []
+                chosen = None
+                if cands and p == 2 and lb:
+                    chosen = next((x for x in cands if [D["common"][v] for v in x[0]] == [q for q, _ in lb]), None)
+                    if chosen is None:
+                        fail(where + "--longest-block-tsv does not list the positions of an intersection block of maximal length", "cli-longest-positions")
+                elif cands and p == 2 and "crash" not in res:
+                    fail(where + "--longest-block-tsv has no rows although there is an intersection block", "cli-longest-positions")
+                elif cands:
+                    chosen = next((x for x in cands if largest_matches(row, x[3], p)), None)
+                if cands and chosen is None:
+                    chosen = cands[0]
+                L = chosen[3] if chosen else None
                 for col, exp in (("intersection_blocks", D["intersection_blocks"]), ("covered_variants", D["covered"]),
                                  ("all_assessed_pairs", D["pairs"]), ("largestblock_assessed_pairs", max(D["longest_len"] - 1, 0)),
                                  ("blockwise_diff_genotypes", D["total"]["diff"]),
-                                 ("largestblock_diff_genotypes", D["longest"]["diff"] if D["longest"] else 0)):
+                                 ("largestblock_diff_genotypes", L["diff"] if L else 0)):
                     if int(row[col]) != exp:
                         fail(where + f"{col} = {row[col]}, by definition {exp}", "cli-" + col)
                 for col, exp in (("all_switches", D["total"]["switches"]), ("blockwise_hamming", D["total"]["hamming"]),
-                                 ("largestblock_switches", D["longest"]["switches"] if D["longest"] else 0),
-                                 ("largestblock_hamming", D["longest"]["hamming"] if D["longest"] else 0)):
+                                 ("largestblock_switches", L["switches"] if L else 0),
+                                 ("largestblock_hamming", L["hamming"] if L else 0)):
                     if frac(float(row[col])) != exp:
                         key = K_A if (single and "switches" in col) else "cli-" + col
                         fail(where + f"{col} = {row[col]}, by definition {exp}", key)
                 for col, swcol, cost, pairs in (
                         ("all_switchflips", "all_switches", D["total"]["sf_cost"], D["total_sf_pairs"]),
-                        ("largestblock_switchflips", "largestblock_switches", D["longest"]["sf_cost"] if D["longest"] else 0,
-                         D["longest"]["sf_pairs"] if D["longest"] else {(0, 0)})):
+                        ("largestblock_switchflips", "largestblock_switches", L["sf_cost"] if L else 0,
+                         L["sf_pairs"] if L else {(0, 0)})):
                     s, f = parse_sf(row[col])
                     if p == 2:
                         if s + f != cost:
@@ -442,20 +457,16 @@ def check_cli(ctx, scen, d, n_relabel, replay_relabelled=None):
                         if len(got) != int(row["all_switches"]):
                             fail(where + f"{len(got)} BED rows but all_switches = {row['all_switches']}", "cli-bed-count")
                     # longest-block agreement
-                    lb = res["longest"].get((c, i, j), [])
-                    if D["longest_block"]:
-                        b, ph0, ph1 = D["longest_block"]
-                        if [x for x, _ in lb] != [D["common"][x] for x in b]:
-                            fail(where + "--longest-block-tsv does not list the positions of the first longest intersection block", "cli-longest-positions")
-                        else:
-                            agr = [y for _, y in lb]
-                            eq = [int(x == y) for x, y in zip(ph0[0], ph1[0])]
-                            zeros = agr.count(0)
-                            if zeros != int(row["largestblock_hamming"]):
-                                fail(where + f"--longest-block-tsv marks {zeros} of {len(agr)} positions as disagreeing, largestblock_hamming = {row['largestblock_hamming']}", K_F3)
-                            elif agr != eq and agr != [1 - x for x in eq]:
-                                fail(where + "agreement vector is neither the position-wise agreement nor its inverse", "cli-longest-vector")
-                    elif lb:
+                    if chosen and lb and [D["common"][v] for v in chosen[0]] == [q for q, _ in lb]:
+                        _, ph0, ph1, _ = chosen
+                        agr = [y for _, y in lb]
+                        eq = [int(x == y) for x, y in zip(ph0[0], ph1[0])]
+                        zeros = agr.count(0)
+                        if zeros != int(row["largestblock_hamming"]):
+                            fail(where + f"--longest-block-tsv marks {zeros} of {len(agr)} positions as disagreeing, largestblock_hamming = {row['largestblock_hamming']}", K_F3)
+                        elif agr != eq and agr != [1 - x for x in eq]:
+                            fail(where + "agreement vector is neither the position-wise agreement nor its inverse", "cli-longest-vector")
+                    elif lb and not cands:
                         fail(where + "--longest-block-tsv has rows although there is no intersection block", "cli-longest-positions")
                 model_reqs.append(((c, i, j), {"op": "c11.pair", "ploidy": p, "t0": table_json(t0), "t1": table_json(t1),
                                               "fixA": True, "fixB": True, "fix3": True}))
@@ -474,15 +485,16 @@ def check_cli(ctx, scen, d, n_relabel, replay_relabelled=None):
     for (key, req), ans in zip(model_reqs, answers):
         row = res["rows"][key]
         if not pair_model_equal(row, res, key, ans, p):
-            if fails:
-                faithful_needed.append((key, req))
-            else:
-                ctx.disagree("c11.pair", req, {x: row[x] for x in NUMERIC}, ans)
+            faithful_needed.append((key, req))
     if faithful_needed:
         reqs = [dict(r, fixA=False, fixB=False, fix3=False) for _, r in faithful_needed]
         for (key, _), req, ans in zip(faithful_needed, reqs, ctx.model.ask_many(reqs)):
+            # the implementation must behave like the repaired model or like the model of the code as it is (the
+            # defects themselves are caught by the property oracle above, independently of either model)
             if not pair_model_equal(res["rows"][key], res, key, ans, p):
-                ctx.disagree("c11.pair(faithful)", req, {x: res["rows"][key][x] for x in NUMERIC}, ans)
+                ctx.disagree("c11.pair", req, {x: res["rows"][key][x] for x in NUMERIC}, ans)
+            else:
+                ctx.observe("implementation matches the as-coded model, not the repaired one (F3/FC11a behaviour present)")
     if p == 2 and k > 2 and not ("crash" in res and not res.get("multiway_assert")):
         died = False
         for c in sorted(scen.chroms):      # run_compare processes the chromosomes in sorted order
@@ -539,6 +551,13 @@ def check_cli(ctx, scen, d, n_relabel, replay_relabelled=None):
     return fails
 
 
+def largest_matches(row, d, p):
+    s, f = parse_sf(row["largestblock_switchflips"])
+    return (frac(float(row["largestblock_switches"])) == d["switches"] and frac(float(row["largestblock_hamming"])) == d["hamming"]
+            and int(row["largestblock_diff_genotypes"]) == d["diff"]
+            and ((s + f == d["sf_cost"]) if p == 2 else ((s, f) in d["sf_pairs"])))
+
+
 def Scenario_from(case):
     return G.Scenario.from_case(case)
 
@@ -548,24 +567,32 @@ def pair_model_equal(row, res, key, ans, p):
         return False
     def num(e, name):
         return Fraction(e[name], e["den"])
-    t, l = ans["total"], ans["largest"]
+
+    def sf_ok(col, e):
+        s, f = parse_sf(row[col])
+        if p == 2:
+            return (s, f) == (e["sf"][0], e["sf"][1])
+        return s + f == Fraction(e["sf"][0] + e["sf"][1], e["den"])   # the split depends on hash order; the sum is determined
+    t = ans["total"]
     ok = (int(row["intersection_blocks"]) == ans["intersection_blocks"] and int(row["covered_variants"]) == ans["covered_variants"]
           and int(row["all_assessed_pairs"]) == ans["assessed_pairs"]
           and int(row["largestblock_assessed_pairs"]) == max(ans["largest_len"] - 1, 0)
           and frac(float(row["all_switches"])) == num(t, "switches") and frac(float(row["blockwise_hamming"])) == num(t, "hamming")
-          and int(row["blockwise_diff_genotypes"]) == t["diff"]
-          and frac(float(row["largestblock_switches"])) == num(l, "switches") and frac(float(row["largestblock_hamming"])) == num(l, "hamming")
-          and int(row["largestblock_diff_genotypes"]) == l["diff"])
-    for col, e in (("all_switchflips", t), ("largestblock_switchflips", l)):
-        s, f = parse_sf(row[col])
-        if p == 2:
-            ok = ok and (s, f) == (e["sf"][0], e["sf"][1])
-        else:   # the split depends on hash order; the sum is determined
-            ok = ok and s + f == Fraction(e["sf"][0] + e["sf"][1], e["den"])
+          and int(row["blockwise_diff_genotypes"]) == t["diff"] and sf_ok("all_switchflips", t))
+    lb = res["longest"].get(key, []) if p == 2 else []
+    have_lb = p == 2 and (lb or "crash" not in res)
+    # the longest block: any block of maximal length of the model (the model itself takes the first, as the code does)
+    cands = [b for b in ans["per_block"] if len(b[0]) == ans["largest_len"]] or [[[], ans["largest"], []]]
+    def block_ok(b):
+        pos, l, agr = b
+        good = (frac(float(row["largestblock_switches"])) == num(l, "switches") and frac(float(row["largestblock_hamming"])) == num(l, "hamming")
+                and int(row["largestblock_diff_genotypes"]) == l["diff"] and sf_ok("largestblock_switchflips", l))
+        if have_lb:
+            good = good and [x for x, _ in lb] == pos and [y for _, y in lb] == agr
+        return good
+    ok = ok and any(block_ok(b) for b in cands)
     if p == 2 and "crash" not in res:
         ok = ok and sorted(res["bed"].get(key, [])) == sorted(tuple(x) for x in ans["bed"])
-        lb = res["longest"].get(key, [])
-        ok = ok and [x for x, _ in lb] == ans["longest_positions"] and [y for _, y in lb] == ans["longest_agreement"]
     return ok
 
 
